@@ -788,6 +788,7 @@ def Expr.nfInv : Expr → Prop
   | .selOr .. => False
   | .lam .. => False
   | .un .. => False
+  | .bin .. => False
 def allNfInv : List Expr → Prop
   | [] => True
   | e :: rest => e.nfInv ∧ allNfInv rest
@@ -812,6 +813,7 @@ def Expr.inlineClean : Expr → Prop
   | .selOr .. => False
   | .lam .. => False
   | .un .. => False
+  | .bin .. => False
 def allInlineClean : List Expr → Prop
   | [] => True
   | e :: rest => e.inlineClean ∧ allInlineClean rest
@@ -1265,6 +1267,7 @@ theorem rebuildAP_summ : (e : Expr) → e.ok → e.mlSafe → e.nfInv → e.inli
   | .selOr .., _, _, hinv, _, _, _, _ => hinv.elim
   | .lam .., _, _, hinv, _, _, _, _ => hinv.elim
   | .un .., _, _, hinv, _, _, _, _ => hinv.elim
+  | .bin .., _, _, hinv, _, _, _, _ => hinv.elim
 theorem joinNl_summ : (es : List Expr) → allOk es → allMlSafe es → allNfInv es → allInlineClean es → nonLastClosed es → es ≠ [] → ∀ (i : Nat),
     ∃ l f t, summ (joinP [.ws ['\n']] (rebuildAllP es i false)) = .lexy l f true t ∧ f ≠ semi ∧ VLead l ∧ TrailT t
   | [], _, _, _, _, _, h, _ => absurd rfl h
@@ -1308,6 +1311,7 @@ theorem previewP_summ : (e : Expr) → e.ok → e.mlSafe → e.nfInv → e.inlin
   | .selOr .., _, _, _, _, i, p, h => by simp [Expr.previewP] at h
   | .lam .., _, _, _, _, i, p, h => by simp [Expr.previewP] at h
   | .un .., _, _, _, _, i, p, h => by simp [Expr.previewP] at h
+  | .bin .., _, _, _, _, i, p, h => by simp [Expr.previewP] at h
   | .list value ml inner before after, hok, hml, hinv, hclean, i, p, h => by
     have hvm := hml.1
     obtain ⟨hv, hin, hb, ha⟩ := hok
